@@ -103,6 +103,9 @@ impl<C: Config> Engine<C> {
             .read_owned()
             .await;
 
+        #[cfg(feature = "verif")]
+        qbice_storage::verif::yield_point("pre-empt:sync:tracked:after_read_lock").await;
+
         let timestamp = Timestamp(
             self.computation_graph
                 .database
@@ -138,6 +141,9 @@ impl<C: Config> Engine<C> {
             .timestamp_map
             .insert((), Timestamp(new_timestamp), &mut write_buffer)
             .await;
+
+        #[cfg(feature = "verif")]
+        qbice_storage::verif::yield_point("pre:sync:session:before_write_lock").await;
 
         let guard = self
             .computation_graph
